@@ -268,8 +268,9 @@ def main():
                     replay_cmd_template=f"/venv/bin/python -m hyverif {pid} --tier quick  # replay file {{path}} names rule+construct",
                     engine="hyverif",
                     level_claimed=dict(category="other", text=text, design_ref=ref),
-                    level_note=note or "Python's own scoping semantics of the emitted Global/Nonlocal/def statements are trusted.",
-                    technique="static analysis: " + tech,
+                    level_note=(note + " " if note else "") + "Structural necessary conditions of the property are decided, not the run-time behaviour itself; rule instances the analysis cannot recognise after a restructuring are listed as unresolved in the evidence (DESIGN.md 0.1, 0.3).",
+                    technique="static analysis over the canonicalised AST of /repo's current sources (hyverif/canon.py: helper/constant inlining, guard-clause and negation normal form; patterns matched modulo renaming of locals): " + tech
+                    + ". Decisions are three-valued: a violation needs positive evidence (a path-condition truth table that differs, a value that flows to the wrong place, a required step reached on no path of a recognised function); an unrecognised restructuring is recorded as unresolved in the evidence, never as a violation.",
                 )
             )
         else:
@@ -293,7 +294,7 @@ def main():
             )
         ],
         checks=checks,
-        notes="Exit protocol: 0 held (KNOWN-FINDING lines for entries of known_findings.json), 1 + VIOLATION line, 2 + ANALYSIS-ERROR when the analysis itself is broken (vanished anchor, unparsable source). Thorough tier adds rule self-validation on in-memory seeded breaks.",
+        notes="Exit protocol: 0 held on everything decided (KNOWN-FINDING lines for entries of known_findings.json; unresolved instances are listed in the evidence), 1 + VIOLATION line, 2 + ANALYSIS-ERROR when the analysis itself is broken (anchored function vanished, unparsable source, checker crash, time budget). Thorough tier adds rule self-validation on in-memory seeded breaks. Catch matrix over the kept seeded changes: seeded/MATRIX.json; false-alarm corpus: neutral/ (DESIGN.md section 0).",
         not_applicable=na,
     )
     with open(os.path.join(HERE, "MANIFEST.json"), "w") as f:
